@@ -329,6 +329,24 @@ def run_on(fb, chk, tag=""):
                 n_del += 1
                 if not (f_ready or f_en):
                     del_bad += 1
+        # ... and the decision is always taken: once the owning worker was found for a ring that has a kick descriptor,
+        # the update either adds or deletes (no cached "nothing to do": the descriptor may have been replaced meanwhile)
+        outs2, _sym2 = summ_.paths(reg)
+        undecided = 0
+        n_owner = 0
+        for o in outs2:
+            if o.ret is None or o.cut:
+                continue
+            owner = any(a[0] == "cmp" and a[1] == "Eq" and const_eval(fb, rm.sym, a[3]) == 1 and a[2][0] == "bin" and a[2][1] == "BitAnd"
+                        and const_eval(fb, rm.sym, a[2][3]) == 1 for a in o.atoms)
+            kick = any(a[0] == "ok" and "get_kick" in show(a[1]) for a in o.atoms)
+            if owner and kick:
+                n_owner += 1
+                if ab not in o.path and db not in o.path:
+                    undecided += 1
+        chk.check(n_owner >= 1 and undecided == 0, "T3", tag + "always-decides", "owner found => the kick descriptor is added or deleted (%d paths)" % n_owner,
+                  "the registration update can return for the owning worker without adding or deleting the kick descriptor (%d of %d paths): "
+                  "a descriptor installed while the ring was already active is never polled" % (undecided, n_owner), reg.loc())
         chk.check(n_add >= 1 and add_bad == 0, "T3", tag + "add", "add under started && enabled (%d paths)" % n_add,
                   "the kick descriptor is added to the epoll set on %d of %d paths without both facts started and enabled" % (add_bad, n_add), reg.loc(at["line"]))
         chk.check(n_del >= 1 and del_bad == 0, "T3", tag + "delete", "delete only when !(started && enabled) (%d paths)" % n_del,
